@@ -78,6 +78,10 @@ def check_case(case, ctx):
     out1, err1, rec1 = E.run(desc, Jt, seed=case["seed"])
     if rec1["randperm"] or rec1["rand"] or rec1["randn"]:
         ctx.count("rng_recorder_hits")
+    if rec1["randperm"]:
+        ctx.count("randperm_recorder_hits")
+    if rec1["rand"]:
+        ctx.count("rand_recorder_hits")
     if err1 is not None:
         ctx.violation("aggregator_raised", case, {"error": repr(err1)[:300], "on": "J"})
         ctx.evaluated()
@@ -180,3 +184,17 @@ def run_shard(shard, ctx):
 
 def replay(case, ctx):
     check_case(case, ctx)
+
+
+REQ_PCGRAD = ["judged:PCGrad/orth", "judged:PCGrad/iso", "judged:PCGrad/perm", "judged:PCGrad/zeros", "judged:PCGrad/span"]
+
+
+def waivers(counters):
+    if counters.get("randperm_recorder_hits", 0) == 0:  # PCGrad judged for m <= 4 only (all-orders guard): its quota is waived
+        return {k for k in REQ_PCGRAD}
+    if counters.get("rand_recorder_hits", 0) == 0:  # GradDrop's uniform draws not observable: its cases are not judged
+        return {"judged:GradDrop/perm", "judged:GradDrop/zeros"}
+    if counters.get("rng_recorder_hits", 0) == 0:
+        return {"rng_recorder_hits", "judged:GradDrop/perm", "judged:GradDrop/zeros", "judged:PCGrad/orth", "judged:PCGrad/iso", "judged:PCGrad/perm",
+                "judged:PCGrad/zeros", "judged:PCGrad/span"}
+    return set()
